@@ -713,6 +713,9 @@ def check_glyf(spec, cx):
                 cx.label("glyf:args-xy" if c["xy"] else "glyf:point-matching")
                 f = c["rawflags"]
                 cx.label("glyf:2x2" if f & 0x80 else "glyf:xy-scale" if f & 0x40 else "glyf:scale" if f & 0x08 else "glyf:no-transform")
+                want_tr = e[1][k][5]
+                if want_tr is not None and bool(want_tr[1]) != bool(want_tr[2]):
+                    cx.label("glyf:2x2-exactly-one-off-diagonal-zero")
                 if f & 0x200:
                     cx.label("glyf:USE_MY_METRICS")
                 if f & 0x4:
@@ -1929,7 +1932,7 @@ REQUIRED_LABELS = [
     "cmap:shared-subtable-data", "cmap:gid>32767", "cmap:harfbuzz",
     "hmtx:trimmed", "hmtx:untrimmed", "hmtx:all-equal", "hmtx:negative-sidebearing", "hmtx:no-header-table", "vmtx:trimmed",
     "glyf:repeat-flag", "glyf:repeat>255", "glyf:short-vector", "glyf:long-vector", "glyf:overlap-simple", "glyf:all-off-curve-contour",
-    "glyf:instructions", "glyf:composite", "glyf:args-words", "glyf:args-bytes", "glyf:point-matching", "glyf:2x2", "glyf:xy-scale",
+    "glyf:instructions", "glyf:composite", "glyf:args-words", "glyf:args-bytes", "glyf:point-matching", "glyf:2x2", "glyf:2x2-exactly-one-off-diagonal-zero", "glyf:xy-scale",
     "glyf:scale", "glyf:USE_MY_METRICS", "glyf:ROUND_XY_TO_GRID", "glyf:nested-composite", "glyf:odd-glyph-length",
     "glyf:odd-length-padded-for-short-loca", "loca:long", "loca:short", "glyf:size-near-0x20000",
     "name:mac_roman", "name:utf_16_be", "name:utf16-supplementary", "name:shift_jis", "name:mac-shift_jis", "name:shared-string-storage",
